@@ -219,7 +219,9 @@ class CellBasis(AbstractBasis):
         rows = np.tile(np.arange(comp * x.shape[1],
                                  dtype=np.int32), self.Nbfun)
         # col indices
-        cols = self.element_dofs[:, np.tile(cells, comp)].flatten()
+        # cells are numbered within the whole mesh, also if the basis is
+        # restricted to a subset of elements
+        cols = self.dofs.element_dofs[:, np.tile(cells, comp)].flatten()
         # shape
         sh = (comp * x.shape[1], self.N)
         return coo_matrix((phis, (rows, cols,)), shape=sh)
